@@ -196,27 +196,27 @@ theorem inbox_atom : ∀ b ∈ inboxBytes, isAtomChar b = true := by decide
 /-- `ExpectMailbox` of the peer over what `Encoder.Mailbox` wrote for a valid UTF-8 name -/
 theorem expectMailbox_mboxBytes (cfg : Cfg) (name : Bytes) (cps : List Nat)
     (hdec : utf8dec name = some cps) (hlen : (encode cps).length < lim63)
-    (c : Nat) (r : Bytes) (hc : isAtomChar c = false) (e : Option Err) (l : List (Nat × Bool)) :
-    expectMailbox cfg.side.peer ⟨mboxBytes cfg name cps ++ c :: r, e, l⟩ =
-      (true, if equalFoldInbox name then inboxBytes else name, ⟨c :: r, e, l ++ mboxLits cfg name cps⟩) := by
+    (c : Nat) (r : Bytes) (hc : isAtomChar c = false) (l : List (Nat × Bool)) :
+    expectMailbox cfg.side.peer ⟨mboxBytes cfg name cps ++ c :: r, none, l⟩ =
+      (true, if equalFoldInbox name then inboxBytes else name, ⟨c :: r, none, l ++ mboxLits cfg name cps⟩) := by
   obtain ⟨hname, hscal⟩ := utf8dec_sound name cps hdec
   unfold mboxBytes mboxLits
   by_cases hi : equalFoldInbox name = true
   · simp only [hi, if_true, List.append_nil]
-    have hatom : expectAtom ⟨inboxBytes ++ c :: r, e, l⟩ = (true, inboxBytes, ⟨c :: r, e, l⟩) := by
+    have hatom : expectAtom ⟨inboxBytes ++ c :: r, none, l⟩ = (true, inboxBytes, ⟨c :: r, none, l⟩) := by
       unfold expectAtom decAtom
-      rw [decFunc_append isAtomChar inboxBytes c r e l (by decide) inbox_atom hc]
+      rw [decFunc_append isAtomChar inboxBytes c r none l (by decide) inbox_atom hc]
       simp [expect]
-    have hA : expectAString cfg.side.peer ⟨inboxBytes ++ c :: r, e, l⟩ =
-        (true, inboxBytes, ⟨c :: r, e, l⟩) := by
+    have hA : expectAString cfg.side.peer ⟨inboxBytes ++ c :: r, none, l⟩ =
+        (true, inboxBytes, ⟨c :: r, none, l⟩) := by
       unfold expectAString
-      have hq : decQuoted ⟨inboxBytes ++ c :: r, e, l⟩ = (false, [], ⟨inboxBytes ++ c :: r, e, l⟩) := by
+      have hq : decQuoted ⟨inboxBytes ++ c :: r, none, l⟩ = (false, [], ⟨inboxBytes ++ c :: r, none, l⟩) := by
         simp [decQuoted, acceptByte, inboxBytes]
-      have hl : decLiteral cfg.side.peer ⟨inboxBytes ++ c :: r, e, l⟩ =
-          (false, [], ⟨inboxBytes ++ c :: r, e, l⟩) := by
+      have hl : decLiteral cfg.side.peer ⟨inboxBytes ++ c :: r, none, l⟩ =
+          (false, [], ⟨inboxBytes ++ c :: r, none, l⟩) := by
         simp [decLiteral, acceptByte, inboxBytes]
       rw [hq]; simp only [Bool.false_eq_true, if_false]
-      rw [hl]; simp only [Bool.false_eq_true, if_false]
+      rw [hl]; simp only [Bool.false_eq_true, if_false, Option.isSome_none]
       exact hatom
     unfold expectMailbox
     rw [hA]
@@ -225,7 +225,7 @@ theorem expectMailbox_mboxBytes (cfg : Cfg) (name : Bytes) (cps : List Nat)
   · have hi' : equalFoldInbox name = false := by simpa using hi
     simp only [hi', Bool.false_eq_true, if_false]
     unfold expectMailbox
-    rw [expectAString_strBytes cfg (encode cps) (c :: r) hlen e l]
+    rw [expectAString_strBytes cfg (encode cps) (c :: r) hlen none l]
     simp only [Bool.not_true, Bool.false_eq_true, if_false]
     rw [encode_not_inbox name cps hname hi', decode_encode' cps hscal]
     simp [hname]
